@@ -156,3 +156,22 @@ Print Assumptions c16_join_is_lub. Print Assumptions c16_meet_is_glb. Print Assu
 Print Assumptions c16_flag_exact. Print Assumptions c16_flag_order. Print Assumptions c16_bounds_extremal.
 Print Assumptions c16_dual_swaps. Print Assumptions c16_reverse_swaps. Print Assumptions c16_cmp_total.
 Print Assumptions c16_ord_types. Print Assumptions c16_example.
+
+(* the CONSUMERS of Ord (Lattice/LatOrdOps.v): on every well-formed type that implements Ord, cmp is antisymmetric, Equal exactly on
+   equal values, the order is total, and sorting a pair by cmp / collecting it into a BTreeSet / Ord::max / Ord::min are determined by
+   the lattice: [a, b].sort_by(Ord::cmp) = [meet, join], the set iterates meet then join, max = join, min = meet.  (Inside ascent_base
+   the tuple lattices' join_mut / meet_mut are such consumers: they go through Ord::cmp of every component type.) *)
+From AV Require Import Lattice.LatOrdOps.
+Theorem c16_ord_consumers : forall t, wf_lty t = true -> forall c, ocmp (denote t) = Some c ->
+  forall a b, wf (denote t) a -> wf (denote t) b ->
+    c b a = CompOpp (c a b) /\ (c a b = Eq <-> a = b) /\ (le (denote t) a b \/ le (denote t) b a) /\
+    sort2 c a b = (mv (denote t) a b, jv (denote t) a b) /\
+    bts2 c a b = (if eqb (denote t) a b then [a] else [mv (denote t) a b; jv (denote t) a b]) /\
+    ord_max (denote t) a b = jv (denote t) a b /\ ord_min (denote t) a b = mv (denote t) a b.
+Proof. exact ord_consumers. Qed.
+(* (Dual<i32>, i32): the pair ((Dual 1, 2), (Dual 3, 0)) - the first is the larger one (lower raw first component) *)
+Example c16_ord_consumers_example :
+  ord_row (denote (LTuple (LCons (LDual i32) (LOne i32)))) (1, 2)%Z (3, 0)%Z =
+    Some (OR Gt Lt (1, 2)%Z (3, 0)%Z ((3, 0)%Z, (1, 2)%Z) [(3, 0)%Z; (1, 2)%Z]).
+Proof. vm_compute. reflexivity. Qed.
+Print Assumptions c16_ord_consumers. Print Assumptions c16_ord_consumers_example.
